@@ -77,6 +77,10 @@ MG = dict(name='File.Merge', probe='k07', fam=['mg'], quick=20000, thorough=6000
           rule='k=1..4 copies of 0..7 lines with marks / packed authors / unequal lengths; distinct by op text')
 TK = dict(name='FloorTime+tick arithmetic', probe='k19', fam=['tk'], quick=50000, thorough=1500000, nontrivial=nt_any,
           rule='times 1960-2360, 6 tick sizes, period boundaries +-1ns, beyond-Duration differences')
+TKR = dict(name='TicksSinceStart.Consume + shared registry under Fork', probe='k19r', fam=['tk'], quick=5000, thorough=200000,
+           case_start=r'^tnew ', nontrivial=nt_has('tfork', 'tcons'), min_per_shard=200,
+           rule='one item forked into up to 3 further branches, 2-9 commits, merge commits replayed on 2-4 branches, committer '
+                'times monotone in half of the cases; compared: tick and the whole registry after every Consume')
 LN = dict(name='CountLines/DiffLinesToRunes/LinesStats', probe='k11', fam=['ln'], quick=30000, thorough=600000,
           nontrivial=nt_any, rule='byte strings over {a,b,LF,space,CR,0xff,x} up to 11 bytes; random edit scripts')
 LNC = dict(name='LinesStatsCalculator.Consume (whole commits)', probe='k12', fam=['ln'], quick=40000, thorough=1000000,
@@ -228,6 +232,6 @@ PROPS = {
     'C16': dict(corr=[IDG, IDM, E16I, E16M]),
     'C17': dict(corr=[CD, CDC, E01]),
     'C18': dict(corr=[DEV, IDM, K18C, E18]),
-    'C19': dict(corr=[TK, E19, PFORK]),
+    'C19': dict(corr=[TK, TKR, E19, PFORK]),
     'C20': dict(corr=[TD, BC, PFORK, E20N, E20P, E20R, E20L, E20S]),
 }
